@@ -75,7 +75,7 @@ the exact shape is a `LeafClause` for poetry's own leaf truth `leafEval E`. -/
 theorem leafClause_of_comp (E : Env) (X Y Z : Nat) (hE : EnvPy E X Y Z) (l : Leaf) (hc : CompLeaf E l)
     (hs : PyShaped l) (hk : convKey l.name = pyKey) : LeafClause (leafEval E) X Y Z l := by
   obtain ⟨s, lit, rfl, hsw, hop, hi, hv⟩ := hs hk
-  obtain ⟨s', he, hcoh, b0, hb0⟩ := hc
+  obtain ⟨s', he, hcoh, ⟨b0, hb0⟩, _⟩ := hc
   injection he with he; subst he
   obtain ⟨item, bb, hitem, hmean, hev⟩ := normPair_exact E X Y Z hE s.name s.op lit hop hi
   obtain ⟨b, hb1, hb2⟩ := pyItem_agree E X Y Z hE s.name s.op lit hop hi
@@ -103,7 +103,7 @@ leaves being of the exact shape -/
 def PyG (E : Env) (l : Leaf) : Prop := CompLeaf E l ∧ PyShaped l ∧ Canon l
 
 theorem pyG_evaluable (E : Env) (m : M) (h : M.Good (PyG E) m) : M.Evaluable E m :=
-  M.good_mono (fun l hl => by obtain ⟨⟨s, _, _, hb⟩, _⟩ := hl; exact hb) m h
+  M.good_mono (fun l hl => by obtain ⟨⟨s, _, _, hb, _⟩, _⟩ := hl; exact hb) m h
 
 mutual
 theorem leaf_name_mem_vars (m : M) : ∀ l ∈ M.leaves m, l.name ∈ M.vars m := by
